@@ -93,6 +93,12 @@ def apply_rewrites(item, rules, log, extra=None):
         t = _sub_logged("R-split", r"\bin\s+([A-Za-z_][\w]*)\.split\(([^()]*)\)", r"in vx_split(\1, \2)", t, log, item)
     if "R-join" in rules:
         t = _sub_logged("R-join", r"\b([A-Za-z_][\w]*)\.join\(([^()]*)\)", r"vx_join(&\1, \2)", t, log, item)
+    if "R-strop" in rules:
+        # byte slicing of a `str`: the `Index` impls of `str` have no Verus spec (and cannot be given one from
+        # outside vstd), so the three slice forms become calls of stand-ins with the std semantics as assumed contract
+        t = _sub_logged("R-strop", r"&\s*([A-Za-z_][\w\.]*(?:\(\))?)\[\s*([^\[\]]+?)\s*\.\.\s*\]", r"vx_slice_from(\1, \2)", t, log, item)
+        t = _sub_logged("R-strop", r"&\s*([A-Za-z_][\w\.]*(?:\(\))?)\[\s*\.\.\s*([^\[\]=]+?)\s*\]", r"vx_slice_to(\1, \2)", t, log, item)
+        t = _sub_logged("R-strop", r"&\s*([A-Za-z_][\w\.]*(?:\(\))?)\[\s*([^\[\]\.]+?)\s*\.\.\s*([^\[\]=\.]+?)\s*\]", r"vx_slice(\1, \2, \3)", t, log, item)
     for rule in (extra or []):
         # unit-specific literal rules: {"id","pattern","repl","why"} -- still logged, still listed in the evidence
         t = _sub_logged(rule["id"], rule["pattern"], rule["repl"], t, log, item, flags=re.S if rule.get("dotall") else 0)
